@@ -85,7 +85,8 @@ Emit == \A fmt \in Fmts : \A du \in {0, 1} :
 NestCase(fmt, via, d, lim) == [op |-> "nest", fmt |-> fmt, via |-> via, d |-> d, lim |-> lim]
 Vias(fmt) == IF fmt = "json" THEN {"one", "oneof", "list", "map", "skip", "value"} ELSE {"one", "oneof", "list", "map", "skip"}
 Depths(lim) == IF lim = 0 THEN {1, 9999, 10000, 10001, 10002, 20003} ELSE {1, lim - 1, lim, lim + 1, lim + 2, 2 * lim + 2, 2 * lim + 3} \ {0}
-EmitNest == ms # <<>> \/ Type # "T" \/ \A fmt \in Fmts : \A via \in Vias(fmt) : \A lim \in {0, 1, 2, 3, 7} : \A d \in Depths(lim) :
+\* emitted once: on the first transition out of the initial state of type T
+EmitNest == ms # <<>> \/ Type # "T" \/ ms' # <<M("optionalInt32", "int")>> \/ \A fmt \in Fmts : \A via \in Vias(fmt) : \A lim \in {0, 1, 2, 3, 7} : \A d \in Depths(lim) :
               PrintT("@@" \o ToJson(NestCase(fmt, via, d, lim) @@ [exp |-> ExpectUniq(NestCase(fmt, via, d, lim))]))
 EmitAll == Emit /\ EmitNest
 =============================================================================
